@@ -23,7 +23,7 @@ CATS = list(sq.CATEGORIES)
 def plan(tier):
     if tier == "quick":
         return [("debug", 8, dict(n=12, nq=150))]
-    return [("debug", 16, dict(n=90, nq=220)), ("release", 4, dict(n=30, nq=200)), ("asan", 4, dict(n=8, nq=120))]
+    return [("debug", 16, dict(n=180, nq=220)), ("release", 8, dict(n=60, nq=200)), ("asan", 4, dict(n=12, nq=120))]
 
 
 SEG = "abcdefghijklmnopqrstuvwxyzABCDEFGHIJKLMNOPQRSTUVWXYZ0123456789_-"
